@@ -5,4 +5,4 @@ CONSTANTS
   Wide = TRUE
   AlphaCap = 5
   LenCap = 4
-  Budget = 400
+  Budget = 200
